@@ -177,7 +177,9 @@ def run(eng, run):
     check_keep(eng, run)
     check_lim(eng, run)
     check_one_error(eng, run)
-    from rules import c10
+    from rules import c01, c10
+    c01.check_consume_once(eng, run, rule="C02.keep")
+    c01.check_json_close(eng, run, rule="C02.err")
     c10.check_conservation(eng, run, rule="C02.bound")
     c10.check_raw_buffer_reads(eng, run, rule="C02.bound")
 
